@@ -399,7 +399,8 @@ fn gen_attr(r: &mut Rng, exotic: bool) -> Attribute {
 }
 
 fn gen_mids(r: &mut Rng, n: usize) -> Vec<String> {
-    match r.below(6) {
+    match r.below(7) {
+        6 => (0..n).map(|i| format!("mid-{:03}-{}", i, "long-non-numeric-identifier-0123456789-abcdefghijklmnopqrstuvwxyz")).collect(),
         0 => vec![String::new(); n],
         1 => (0..n).map(|i| i.to_string()).collect(),
         2 => (0..n).map(|i| format!("{}{}", r.pick(&["audio", "video", "data", "m-"]), i)).collect(),
@@ -438,7 +439,7 @@ fn gen_desc(r: &mut Rng, exotic: bool) -> SessionDescription {
         };
         d.session.attributes.push(a);
     }
-    let n = if r.chance(1, 15) { 0 } else { r.range(1, 6) as usize };
+    let n = if r.chance(1, 15) { 0 } else if r.chance(1, 12) { r.range(7, 12) as usize } else { r.range(1, 6) as usize };
     let mids = gen_mids(r, n);
     for i in 0..n {
         let kind = *r.pick(&[MediaKind::Audio, MediaKind::Video, MediaKind::Application, MediaKind::Image]);
@@ -1136,13 +1137,9 @@ fn valid_answer_oracle(offer_text: &str, answer_text: &str, ctx: &OracleCtx) -> 
                 None => true,
             };
             if !(role_ok && compat) {
-                // listed class: the DTLS role is derived from media-level a=setup only
-                let any_media_setup = o.secs.iter().any(|x| x.get("setup").is_some());
-                if !any_media_setup && o_media.is_none() && s == "active" {
-                    v.known.push("session_level_setup_ignored".into());
-                } else {
-                    v.fails.push(format!("section {}: offered setup {:?} answered {:?}", i, o_eff, s));
-                }
+                // (finding F29, session-level a=setup ignored, is fixed by aa4c5b4: no listed class here)
+                let _ = &o_media;
+                v.fails.push(format!("section {}: offered setup {:?} answered {:?}", i, o_eff, s));
             }
         }
     }
@@ -1298,6 +1295,22 @@ fn scenario_case(sc: &Scenario, recs: &[RoundRec], kind: &str, stats: &mut Stats
         rounds_t.push(format!("({}, {}, {})", offer_t(o), bool_term(rec.changed), out_t));
         jr.push(json!({"round": i, "offer": rec.offer_text, "changed": rec.changed,
             "answer": match &rec.out { RoundOut::Answer(a) => Some(a.to_sdp_string()), _ => None }}));
+    }
+    // input distribution: sections per offer and mid scheme
+    for o in &sc.rounds {
+        let n = o.secs.len();
+        *stats.c.entry(format!("offer:sections:{}", if n <= 6 { n.to_string() } else { "7-12".into() })).or_default() += 1;
+        let mids: Vec<&String> = o.secs.iter().map(|x| &x.mid).collect();
+        let mut d = mids.clone();
+        d.sort();
+        d.dedup();
+        let scheme = if mids.iter().all(|m| m.is_empty()) { "absent" }
+            else if d.len() < mids.len() { if mids.iter().any(|m| m.is_empty()) { "partly-absent/duplicate" } else { "duplicate" } }
+            else if mids.iter().any(|m| m.is_empty()) { "partly-absent" }
+            else if mids.iter().any(|m| m.len() > 40) { "long" }
+            else if mids.iter().all(|m| m.chars().all(|c| c.is_ascii_digit())) { "numeric" }
+            else { "non-numeric" };
+        *stats.c.entry(format!("offer:mids:{}", scheme)).or_default() += 1;
     }
     known.sort();
     known.dedup();
@@ -1478,21 +1491,28 @@ fn pick_kind(r: &mut Rng) -> MediaKind {
         _ => MediaKind::Image,
     }
 }
-/// mid scheme: 0 numeric, 1 named, 2 absent, 3 (odd) duplicates, 4 (odd) partly absent, 5 numeric big
+/// mid scheme: 0 numeric, 1 named, 2 absent, 3 (odd) duplicates, 4 (odd) partly absent, 5 numeric near u16::MAX,
+/// 6 long (64+ characters), 7 RFC 4566 token punctuation, 8 differing only in case, 9 numerically equal but
+/// textually distinct ("1", "01", "+1", "001" ...)
 fn mid_for(r: &mut Rng, scheme: u64, i: usize, kind: MediaKind) -> String {
     match scheme {
         0 => i.to_string(),
         1 => format!("{}{}", kind_s(kind), i),
         2 => String::new(),
-        3 => r.pick(&["0", "1", "a"]).to_string(),
+        3 => r.pick(&["0", "1", "a", "audio", "65535"]).to_string(),
         4 => if r.chance(1, 2) { String::new() } else { i.to_string() },
-        _ => (65530 + i).to_string(),
+        5 => (65530 + i).to_string(),
+        6 => format!("{}-{:02}-0123456789abcdefghijklmnopqrstuvwxyzABCDEFGHIJKLMNOPQRSTUVWXYZ", kind_s(kind), i),
+        7 => format!("{}{}", ["m!#", "$%&", "'*+", "-.^", "_`{", "|}~", "a.b", "x-y", "p_q", "z+z", "k~k", "w^w"][i % 12], i),
+        8 => ["a", "A", "b", "B", "audio", "AUDIO", "Audio", "c", "C", "video", "VIDEO", "Video"][i % 12].to_string(),
+        _ => ["1", "01", "+1", "001", "2", "02", "+2", "0", "00", "+0", "3", "03"][i % 12].to_string(),
     }
 }
 fn gen_offer(r: &mut Rng, mode: &TransportMode, wf: bool) -> (Offer, u64) {
     let webrtcish = *mode == TransportMode::WebRtc || r.chance(1, 4);
-    let n = if r.chance(1, 3) { 1 } else { r.range(1, 6) as usize };
-    let scheme = if wf { *r.pick(&[0u64, 0, 0, 1, 2, 2, 5]) } else { r.below(6) };
+    // 1..6 sections mostly; one offer in ten has 7..12 (beyond the property's stated range, on request)
+    let n = if r.chance(1, 3) { 1 } else if r.chance(1, 7) { r.range(7, 12) as usize } else { r.range(1, 6) as usize };
+    let scheme = if wf { *r.pick(&[0u64, 0, 0, 1, 2, 2, 5, 6, 7, 8, 9]) } else { *r.pick(&[3u64, 3, 4, 4, 0, 2, 6, 8, 9]) };
     let mut secs = vec![];
     for i in 0..n {
         let kind = pick_kind(r);
@@ -1579,7 +1599,7 @@ fn mutate_offer(r: &mut Rng, prev: &Offer, scheme: u64, mode: &TransportMode, wf
             s.setup = Some(r.pick(&["active", "passive", "actpass"]).to_string());
         }
     }
-    if o.secs.len() < 6 && r.chance(1, 4) {
+    if o.secs.len() < 12 && r.chance(1, 4) {
         let kind = pick_kind(r);
         let i = o.secs.len();
         let mid = mid_for(r, scheme, i, kind);
@@ -1681,7 +1701,7 @@ fn corpus_scenarios() -> Vec<Scenario> {
         rounds: vec![simple_offer(vec![], vec![
             { let mut s = simple_sec(MediaKind::Audio, "", vec![opus()]); s.ext = vec![(3, URI_ABS.into())]; s },
             { let mut s = simple_sec(MediaKind::Video, "", vec![vp8()]); s.ext = vec![(5, URI_ABS.into()), (3, OTHER_URIS[0].into())]; s }])] });
-    // session-level a=setup:active, no media-level setup
+    // session-level a=setup:active, no media-level setup (F29, fixed: must be answered passive)
     v.push(Scenario { cfg: default_cfg(), pre: vec![], dc: false, wf: true,
         rounds: vec![{ let mut o = simple_offer(vec![vec!["0".into()]], vec![{ let mut s = simple_sec(MediaKind::Audio, "0", vec![opus()]); s.setup = None; s.fp = false; s }]);
                        o.sess_fp = true; o.sess_setup = Some("active".into()); o }] });
